@@ -266,6 +266,7 @@ def main(chk, replay=None):
     slices.append('reordered')
     slices.append('many-par')
     slices.append('offset-styles')
+    slices.append('blank-numbers')
     mc_reader(chk)
     header_part(chk)
     for sl in slices:
